@@ -16,6 +16,7 @@ recurrence's values) — see DESIGN.md.
 from __future__ import annotations
 
 import ast
+from engine.util import clone_ast
 from typing import Dict, List, Optional, Tuple
 
 from engine.src import FunctionInfo, own_nodes, own_nodes_incl_lambda, src_of, AnalysisError
@@ -170,7 +171,7 @@ def _summary_names(fi: FunctionInfo, interaction_only: bool) -> Dict[str, str]:
 
     import copy
 
-    body = [PE().visit(copy.deepcopy(s)) for s in inner.body]
+    body = [PE().visit(clone_ast(s)) for s in inner.body]
     for s in body:
         ast.fix_missing_locations(s)
     ext = [s for s in body if isinstance(s, ast.Expr) and src_of(s.value).startswith("names.extend(")]
